@@ -833,6 +833,11 @@ func (x *Run) solveCached(body string) SolveResult {
 // evNameMatch: the event name contains pat, not followed by '$' (closures of
 // the named function are different events).
 func evNameMatch(name, pat string) bool {
+	// a pattern ending in "$" must match the end of the event name ("Write$"
+	// does not match "WriteHeader")
+	if strings.HasSuffix(pat, "$") && len(pat) > 1 {
+		return strings.HasSuffix(name, pat[:len(pat)-1])
+	}
 	i := strings.Index(name, pat)
 	for i >= 0 {
 		j := i + len(pat)
